@@ -1,0 +1,45 @@
+//go:build verif
+
+package cron
+
+// Contracts for fvc (see /verif/DESIGN.md). Comment-only file.
+
+// cronNext(e, t): what expression e answers for "next instant after t". For parsed cronexpr expressions this
+// is the cronexpr library (ASSUMED: the least instant > t, on a whole second, matching e in t's location, or
+// the zero time if there is none). Only "zero or strictly later" is used by the proofs below.
+//@ pure cronNext(e Expression, from time.Time) time.Time
+//@ axiom next-zero-or-later: forall e Expression, t time.Time :: cronNext(e, t).IsZero() || ns(cronNext(e, t)) > ns(t)
+
+//@ extern func iface github.com/furiko-io/furiko/pkg/execution/util/cron.Expression.Next
+//@   params recv, fromTime
+//@   ensures result == cronNext(recv, fromTime)
+
+//@ func multiExpression.Next
+//@   tags C01
+//@   safety nil, index
+//@   requires m != nil
+//@   loop 1 invariant -1 <= rangeindex && rangeindex < len(m.expressions)
+//@   loop 1 invariant forall k int :: 0 <= k && k <= rangeindex ==>
+//@        (cronNext(m.expressions[k], fromTime).IsZero() || (!earliestNext.IsZero() && ns(earliestNext) <= ns(cronNext(m.expressions[k], fromTime))))
+//@   loop 1 invariant earliestNext.IsZero() || (exists k int :: 0 <= k && k <= rangeindex && earliestNext == cronNext(m.expressions[k], fromTime))
+//@   ensures [C01] earliest-of-many: forall k int :: 0 <= k && k < len(m.expressions) ==>
+//@        (cronNext(m.expressions[k], fromTime).IsZero() || (!result.IsZero() && ns(result) <= ns(cronNext(m.expressions[k], fromTime))))
+//@   ensures [C01] is-one-of-them: result.IsZero() || (exists k int :: 0 <= k && k < len(m.expressions) && result == cronNext(m.expressions[k], fromTime))
+//@   ensures [C01] zero-or-later: result.IsZero() || ns(result) > ns(fromTime)
+
+// Parsing (cronexpr behind Parser.Parse): ASSUMED deterministic in (spec, parser config); the hash id only
+// influences which instants an "H" field denotes, never whether parsing succeeds.
+//@ pure parsedExpr(spec *execution.CronSchedule, parser *Parser, hashID string) Expression
+//@ pure parseOK(spec *execution.CronSchedule, parser *Parser) bool
+
+//@ extern func NewExpressionFromCronSchedule
+//@   params spec, parser, hashID
+//@   ensures (result1 == nil) == parseOK(spec, parser)
+//@   ensures result1 == nil ==> result0 != nil && result0 == parsedExpr(spec, parser, hashID)
+//@   ensures result1 != nil ==> result0 == nil
+
+// builds a Parser value from the dynamic config (cronexpr option plumbing, not modelled)
+//@ extern func NewParserFromConfig
+//@   params cfg
+//@   fresh result
+//@   ensures result != nil
